@@ -131,6 +131,17 @@ def c01_inside(ctx, dim, payload, origin):
     # centre
     cc = cs.coordinate(np.array([v[m] + 0.5 for m in range(dim)]))
     ctx.ensure("voxel(coordinate(v + 1/2)) == v", eq(list(cs.voxel(cc)), list(v)))
+    # instances of the first clause that random sampling never hits: points close to (but a safe 1e-6 / 1e-3 voxel sizes away from) a voxel
+    # face, and far-away voxels (a halo index of +-1e5: rounding error there is ~1e-11 voxel sizes)
+    from fractions import Fraction
+    for eps in (Fraction(1, 10**6), Fraction(1, 10**3)):
+        for side in (eps, 1 - eps):
+            q = cs.coordinate(np.array([v[m] + (side if ctx.sym else float(side)) for m in range(dim)]))
+            ctx.ensure(f"voxel(coordinate(v + {float(side)})) == v", eq(list(cs.voxel(q)), list(v)))
+    far = [v[m] + (100000 if m % 2 == 0 else -100000) for m in range(dim)]
+    for off in (0.5, 0.99, 0.01):
+        q = cs.coordinate(np.array([far[m] + (Fraction(off).limit_denominator(100) if ctx.sym else off) for m in range(dim)]))
+        ctx.ensure(f"far voxel: voxel(coordinate(v +- 1e5 + {off})) == v +- 1e5", eq(list(cs.voxel(q)), list(far)))
     # num_voxels: number of touched voxels of a length
     ln = ctx.real("len", lo=0, sample=(0.0, 30.0))
     for m, (ax, sg) in enumerate(SPEC[dim]):
